@@ -464,6 +464,12 @@ class C05(PropCheck):
             for m, kind in HOOKS:
                 out.append({"k": "scenario", "name": name, "kind": kind})
         out.append({"k": "objects"})
+        # a failing callback registered through customize(), under every flag combination and both forms
+        for hide in (False, True):
+            for hide_line in (False, True):
+                for prune in (False, True):
+                    for form in ("direct", "decorator"):
+                        out.append({"k": "custfault", "hide": hide, "hide_line": hide_line, "prune": prune, "form": form})
         return out
 
     def model_line(self, case):
@@ -498,6 +504,8 @@ class C05(PropCheck):
             return self.run_sweep(case)
         if case["k"] == "scenario":
             return self.run_scenario(case)
+        if case["k"] == "custfault":
+            return self.run_custfault(case)
         if case["k"] == "objects":
             res = []
             class Array:          # numpy / pandas style: a comparison has no truth value
@@ -537,6 +545,51 @@ class C05(PropCheck):
             return {"objects": res}
         raise ValueError(case["k"])
 
+    def run_custfault(self, case):
+        import stackscope
+
+        exc = exc_type(3)(4242)
+        fired = []
+
+        def cb(frame, next_inner):
+            fired.append(1)
+            raise exc
+
+        def inner():
+            yield 1
+
+        def mid():
+            yield from inner()
+
+        def outer():
+            yield from mid()
+
+        flags = {k: case[k] for k in ("hide", "hide_line", "prune")}
+        if case["form"] == "direct":
+            stackscope.customize(mid, elaborate=cb, **flags)
+        else:
+            stackscope.customize(elaborate=cb, **flags)(mid)
+        g = outer()
+        next(g)
+        problems = []
+        try:
+            st = stackscope.extract(g, with_contexts=False)
+        except BaseException as e:  # noqa: BLE001
+            return {"problems": [f"customize({flags}, {case['form']}) with a failing callback: extract raised {type(e).__name__}: {e}"]}
+        names = [f.funcname for f in st.frames]
+        if not fired:
+            problems.append("harness: the callback never ran")
+        if not any(e is exc for e in errors_in(st)):
+            problems.append(f"customize({flags}, {case['form']}) with a failing callback: the injected exception is not retrievable from "
+                            f"Stack.error ({st.error!r}); frames {names}")
+        if names[:2] != ["outer", "mid"]:
+            problems.append(f"customize({flags}, {case['form']}) with a failing callback: frames outward of the failure are {names}")
+        f = common_checks(st, None)
+        if f:
+            problems.append(f)
+        g.close()
+        return {"fired": len(fired), "problems": problems}
+
     def run_sweep(self, case):
         import stackscope
 
@@ -558,6 +611,7 @@ class C05(PropCheck):
             faults = list(plan)
             injected = []
             emitted_at = []
+            failing_frames = set()
 
             def tick(what, w=w):
                 w.ticks += 1
@@ -567,6 +621,10 @@ class C05(PropCheck):
                     injected.append(ex)
                     if not emitted_at:
                         emitted_at.append(sum(1 for c in w.calls if c[0] == "elab") - (1 if what == "elab" else 0))
+                    if what == "elab" and w.calls:
+                        # (the frame whose own hook fails has its hide flag reset, as documented; a hook table can make one Frame
+                        # object come round twice, and then that object is also an earlier entry of the list)
+                        failing_frames.add(w.calls[-1][1])
                     raise ex
 
             w.tick = tick
@@ -599,10 +657,10 @@ class C05(PropCheck):
                 if len(st.frames) < n:
                     problems.append(f"fault at {plan}: only {len(st.frames)} frames kept, {n} had been emitted")
                 else:
-                    self._cmp_prefix(env, base, st, n, w, plan, problems)
+                    self._cmp_prefix(env, base, st, n, w, plan, problems, failing_frames)
         return {"sweep": total, "plans": len(plans), "fired": fired, "problems": problems[:5]}
 
-    def _cmp_prefix(self, env, base, st, n, w, plan, problems):
+    def _cmp_prefix(self, env, base, st, n, w, plan, problems, failing_frames=()):
         # ids of base frames: rebuild the id map of the base world through positions (deterministic construction)
         bw = World(env)
         import stackscope
@@ -610,6 +668,8 @@ class C05(PropCheck):
         b2 = stackscope.extract(bw.obj(env["x"]), with_contexts=env.get("wc", False))
         want = [(bw.ids.get(id(f.pyframe)), f.hide, f.lineno, len(f.contexts)) for f in b2.frames[:n]]
         got = [(w.ids.get(id(f.pyframe)), f.hide, f.lineno, len(f.contexts)) for f in st.frames[:n]]
+        want = [(a, None if a in failing_frames else h, l, c) for a, h, l, c in want]
+        got = [(a, None if a in failing_frames else h, l, c) for a, h, l, c in got]
         if want != got:
             problems.append(f"fault at {plan}: frames outward of the failure differ from the fault-free extraction: {got} vs {want}")
 
